@@ -21,6 +21,8 @@ def configure(cfg, r, tier):
         cfg["ops"][k]["freeze"] = 0.3
         cfg["ops"][k]["set_net_attr"] = 2.5
     cfg["faults"] = False
+    if cfg["initial"] == ["SC"] and r.random() < 0.15:
+        cfg["profile"] = "large"  # size thresholds in the replay of a big complex (copy, constructor)
 
 
 def next_record(sim):
